@@ -403,18 +403,22 @@ func (e *Encoder) Encode(d interface{}) error {
 			"NewEncoder. Try EncodeFields instead.")
 	}
 	v := reflect.Indirect(reflect.ValueOf(d))
-	for i, j := range e.fieldIndices {
-		if err := e.Writer.WriteAttribute(e.row, i, v.Field(j).Interface()); err != nil {
-			return fmt.Errorf("shp: %v", err)
-		}
-	}
-
 	shape, err := geom2Shp(v.Field(e.geomIndex).Interface().(geom.Geom))
 	if err != nil {
 		return err
 	}
+	// The shape has to be written first: writing it is what adds the (blank)
+	// row to the attribute table. Attributes written before their row exists
+	// are followed by that blank row instead of being inside it, which leaves
+	// a stray space (and bytes of earlier rows) in the last attribute.
 	e.Writer.Write(shape)
+	row := e.row
 	e.row++
+	for i, j := range e.fieldIndices {
+		if err := e.Writer.WriteAttribute(row, i, v.Field(j).Interface()); err != nil {
+			return fmt.Errorf("shp: %v", err)
+		}
+	}
 	return nil
 }
 
